@@ -173,10 +173,13 @@ Lemma getenv_render k e :
 Proof.
   intros Hk. induction e as [|[k' v] e IH]; intros He; [reflexivity|].
   cbn [map fst forallb] in He. apply andb_true_iff in He. destruct He as [Hk' He].
-  unfold render. cbn [map getenv lookup fst snd]. rewrite (is_prefix_key k k' v Hk Hk').
-  destruct (bytes_eqb k k') eqn:E.
-  - apply bytes_eqb_eq in E. subst k'. rewrite skipn_key. reflexivity.
-  - apply IH. exact He.
+  unfold render. cbn [map getenv lookup fst snd].
+  pose proof (is_prefix_key k k' v Hk Hk') as Hp.
+  match goal with |- context [is_prefix ?a ?b] => destruct (is_prefix a b) eqn:P end.
+  - assert (E : bytes_eqb k k' = true) by (etransitivity; [symmetry; exact Hp|exact P]).
+    rewrite E. apply bytes_eqb_eq in E. subst k'. f_equal. apply skipn_key.
+  - assert (E : bytes_eqb k k' = false) by (etransitivity; [symmetry; exact Hp|exact P]).
+    rewrite E. apply IH. exact He.
 Qed.
 
 (* If the requested keys contain no '=', the child's getenv(k) returns the value of the first writer of k. *)
